@@ -121,7 +121,13 @@ class Interp:
         if 'cv' in n and k not in ('DeclRefExpr', 'MemberExpr') or k in ('IntegerLiteral', 'CharacterLiteral'):
             if 'cv' in n:
                 return n['cv']
+            if 'cvs' in n:
+                return int(n['cvs'])
+            if 'vals' in n:
+                return int(n['vals'])
             return n.get('val')
+        if 'cvs' in n and k not in ('DeclRefExpr', 'MemberExpr'):
+            return int(n['cvs'])
         if k == 'CXXBoolLiteralExpr':
             return 1 if n['val'] else 0
         if k == 'CXXNullPtrLiteralExpr' or k == 'GNUNullExpr':
